@@ -11,7 +11,8 @@ from tools.lib import proofs as P
 from tools.lib import reduce_suite as R
 
 LEVEL = "proof"
-FUNCS = ["sum", "nansum", "max", "nanmin", "count", "mean", "nanfirst", "nanlast", "first", "last", "prod"]
+FUNCS = ["sum", "nansum", "max", "nanmin", "count", "mean", "nanfirst", "nanlast", "first", "last", "prod",
+         "argmax", "argmin", "nanargmax", "argmax"]
 
 
 def gen_cases(rng, n):
@@ -24,7 +25,7 @@ def gen_cases(rng, n):
         present = list(dict.fromkeys(x for x in labels if x != "nan"))
         if not present:
             continue
-        c = {"func": func, "vals": G.rand_vals(rng, m, alphabet=G.ALPHA_FINITE + ["nan"], p_special=0.1 if "nan" in func or func == "count" else 0.0),
+        c = {"func": func, "vals": G.rand_vals(rng, m, alphabet=G.ALPHA_FINITE + ["nan"], p_special=0.1 if func.startswith("nan") or func == "count" else 0.0),
              "labels": labels, "sort": rng.random() < 0.5, "engine": rng.choice(["numpy", "flox", None])}
         ek = rng.choice(["absent", "sorted", "unsorted", "unsorted-superset"])
         if ek == "sorted":
@@ -38,7 +39,11 @@ def gen_cases(rng, n):
             rng.shuffle(e)
             c["expected"] = e
             c["fill_value"] = -99
+        if "arg" in func:
+            c["engine"] = "numpy"
         plan = rng.choice(["eager", "eager", "map-reduce", "cohorts", "blockwise", "auto"])
+        if "arg" in func and plan == "blockwise":
+            plan = "cohorts"
         if plan != "eager":
             if func in ("first", "last") and plan != "blockwise":
                 continue
